@@ -464,6 +464,8 @@ TREE_WITNESSES = [
     ('=1.5E+3+A1', ('op', '+', 1500.0, 'A1')), ('=2E-2*3', ('op', '*', 0.02, 3)), ('=12.75', 12.75), ('=007', 7),
     ('=1.25E+5', 125000.0), ('=6.02E+23*2', ('op', '*', 6.02e23, 2)), ('=1.05E-5', 1.05e-05), ('=A1*1.23456789012345E+30-1', ('op', '-', ('op', '*', 'A1', 1.23456789012345e30), 1)),
     ('=9.999E-7+1E+30', ('op', '+', 9.999e-07, 1e30)), ('=123456789012345', 123456789012345), ('=0.000001', 0.000001), ('=1E+2', 100.0), ('=5e-1', 0.5),
+    ('=.5+1', ('op', '+', 0.5, 1)), ('=2*.5', ('op', '*', 2, 0.5)), ('=5.+1', ('op', '+', 5.0, 1)), ('=2^.5', ('op', '^', 2, 0.5)), ('=A1-.25', ('op', '-', 'A1', 0.25)),
+    ('=SUM(.5,5.,1.)', ('call', 'SUM', 0.5, 5.0, 1.0)), ('=10/.5/5.', ('op', '/', ('op', '/', 10, 0.5), 5.0)), ('=(.25)*4', ('op', '*', 0.25, 4)),
     ("=Sheet2!A1+'My Sheet'!$B$2", ('op', '+', 'Sheet2!A1', 'My Sheet!$B$2')), ('=$A$1:B$2', '$A$1:B$2'),
     ('={1,2;3,4}', ('call', 'ARRAY', ('call', 'ARRAYROW', 1, 2), ('call', 'ARRAYROW', 3, 4))),
     ('=SUM({1,2},3)', ('call', 'SUM', ('call', 'ARRAY', ('call', 'ARRAYROW', 1, 2)), 3)),
